@@ -2,7 +2,9 @@ package g_hmisc
 
 import (
 	"bytes"
+	"encoding/json"
 	"fmt"
+	"io"
 	"net/http"
 	"sort"
 	"strings"
@@ -10,6 +12,10 @@ import (
 	"testing"
 
 	"github.com/Query-farm/vgi-rpc-go/vgirpc"
+	"github.com/apache/arrow-go/v18/arrow"
+	"github.com/apache/arrow-go/v18/arrow/array"
+	"github.com/apache/arrow-go/v18/arrow/ipc"
+	"github.com/apache/arrow-go/v18/arrow/memory"
 	"pgregory.net/rapid"
 
 	"verifharness/lib"
@@ -23,9 +29,25 @@ type c17Pair struct {
 }
 
 type c17Body struct {
-	Kind string `json:"kind"` // unary_b | unary_rand | error | stream | describe | notfound_method | bad_ct | html_landing | html_describe | html_404 | json_401 | health
-	Size int    `json:"size,omitempty"`
-	Seed uint64 `json:"seed,omitempty"`
+	Kind  string    `json:"kind"` // unary_b | unary_rand | error | stream | describe | notfound_method | bad_ct | html_landing | html_describe | html_404 | json_401 | health | route
+	Size  int       `json:"size,omitempty"`
+	Seed  uint64    `json:"seed,omitempty"`
+	Route *c17Route `json:"route,omitempty"` // kind route: how the server-supplied route produces its body
+}
+
+// c17Route is the production plan of a response body written by a route the
+// server's owner registered with HttpServer.Handle (documented to run through
+// the same envelope, response compression included). "All response bodies"
+// includes how a body reaches the ResponseWriter: in how many Write calls, of
+// which sizes, from slices the producer keeps or from a scratch buffer it
+// reuses as soon as Write has returned (io.Writer: "Write must not retain p").
+type c17Route struct {
+	Mode   string `json:"mode"`             // slices | scratch | ipc | iocopy
+	CT     string `json:"ct"`               // arrow | text
+	Size   int    `json:"size"`             // body bytes (ipc: rows of the batch)
+	Seed   uint64 `json:"seed"`             // body content
+	Cuts   []int  `json:"cuts,omitempty"`   // sizes of the successive Write calls (slices/scratch); what is left goes in a last Write
+	Header bool   `json:"header,omitempty"` // explicit WriteHeader(200) before the first Write
 }
 
 type c17Case struct {
@@ -71,7 +93,46 @@ func genC17Pair(t *rapid.T) c17Pair {
 }
 
 var c17Kinds = []string{"unary_b", "unary_b", "unary_b", "unary_rand", "unary_rand", "error", "stream", "describe", "notfound_method", "bad_ct",
-	"html_landing", "html_describe", "html_404", "json_401", "health", "req_unknown_coding", "req_undecodable"}
+	"html_landing", "html_describe", "html_404", "json_401", "health", "req_unknown_coding", "req_undecodable", "route", "route", "route"}
+
+func genC17Route(t *rapid.T) *c17Route {
+	r := &c17Route{
+		Mode:   []string{"slices", "scratch", "scratch", "ipc", "iocopy"}[rapid.IntRange(0, 4).Draw(t, "route-mode")],
+		CT:     []string{"arrow", "arrow", "arrow", "text"}[rapid.IntRange(0, 3).Draw(t, "route-ct")],
+		Seed:   rapid.Uint64().Draw(t, "route-seed"),
+		Header: rapid.IntRange(0, 3).Draw(t, "route-writeheader") == 0,
+	}
+	switch r.Mode {
+	case "ipc":
+		r.Size = rapid.IntRange(0, 600).Draw(t, "route-rows")
+	case "iocopy":
+		// io.Copy moves the body through a 32 KiB buffer of its own
+		if rapid.IntRange(0, 2).Draw(t, "route-copy-small") == 0 {
+			r.Size = rapid.IntRange(0, 4096).Draw(t, "route-size")
+		} else {
+			r.Size = rapid.IntRange(32<<10, 160<<10).Draw(t, "route-bigsize")
+		}
+	default:
+		r.Size = rapid.IntRange(0, 8192).Draw(t, "route-size")
+		n := rapid.IntRange(0, 5).Draw(t, "route-ncuts")
+		left := r.Size
+		for i := 0; i < n; i++ {
+			var w int
+			switch rapid.IntRange(0, 3).Draw(t, "route-cutclass") {
+			case 0:
+				w = []int{0, 1, 4, 8}[rapid.IntRange(0, 3).Draw(t, "route-cut-small")]
+			default:
+				w = rapid.IntRange(0, left).Draw(t, "route-cut")
+			}
+			if w > left {
+				w = left
+			}
+			r.Cuts = append(r.Cuts, w)
+			left -= w
+		}
+	}
+	return r
+}
 
 func genC17(t *rapid.T) c17Case {
 	c := c17Case{Level: []int{-1, 0, 1, 1, 2, 2, 3, 3, 4, 4, 5, 7, 9, 11, 12, 22}[rapid.IntRange(0, 15).Draw(t, "level")]}
@@ -105,6 +166,8 @@ func genC17(t *rapid.T) c17Case {
 		c.Body.Seed = rapid.Uint64().Draw(t, "seed")
 	case "stream":
 		c.Body.Size = rapid.IntRange(1, 6).Draw(t, "turns")
+	case "route":
+		c.Body.Route = genC17Route(t)
 	}
 	n := rapid.IntRange(6, 12).Draw(t, "npairs")
 	for i := 0; i < n; i++ {
@@ -151,6 +214,7 @@ func c17GetServer(level int, rejectAuth bool) *c17Server {
 			return nil, &vgirpc.RpcError{Type: "ValueError", Message: "no credentials"}
 		})
 	}
+	h.Handle("POST /c17route", c17RouteHandler)
 	s := &c17Server{h: h, refused: refused}
 	if !rejectAuth {
 		r := doRequest(h, "POST", "/u_str", hdrList{{"Content-Type", lib.ArrowCT}}, c17FixedRequest(), true)
@@ -158,6 +222,117 @@ func c17GetServer(level int, rejectAuth bool) *c17Server {
 	}
 	c17Servers[key] = s
 	return s
+}
+
+const c17PlanHeader = "X-C17-Plan"
+
+var c17RouteSchema = arrow.NewSchema([]arrow.Field{
+	{Name: "n", Type: arrow.PrimitiveTypes.Int64},
+	{Name: "s", Type: arrow.BinaryTypes.String},
+}, nil)
+
+// c17RouteWrites lists the successive Write payloads of a slices/scratch plan.
+func c17RouteWrites(p *c17Route) [][]byte {
+	body := pseudoRandomBytes(p.Seed, p.Size)
+	var out [][]byte
+	off := 0
+	for _, n := range p.Cuts {
+		if n < 0 {
+			n = 0
+		}
+		if n > len(body)-off {
+			n = len(body) - off
+		}
+		out = append(out, body[off:off+n])
+		off += n
+	}
+	if off < len(body) || len(out) == 0 {
+		out = append(out, body[off:])
+	}
+	return out
+}
+
+// c17RouteProduce writes the planned body to w the way the plan says. The
+// same function pointed at a bytes.Buffer gives the harness the bytes the
+// route meant to send.
+func c17RouteProduce(w io.Writer, p *c17Route) error {
+	switch p.Mode {
+	case "ipc":
+		// an Arrow stream serialised straight into the ResponseWriter
+		b := array.NewRecordBuilder(memory.DefaultAllocator, c17RouteSchema)
+		defer b.Release()
+		text := pseudoRandomText(p.Seed, 7*p.Size)
+		for i := 0; i < p.Size; i++ {
+			b.Field(0).(*array.Int64Builder).Append(int64(p.Seed>>8) + int64(i))
+			b.Field(1).(*array.StringBuilder).Append(string(text[7*i : 7*i+i%8]))
+		}
+		rec := b.NewRecordBatch()
+		defer rec.Release()
+		iw := ipc.NewWriter(w, ipc.WithSchema(c17RouteSchema))
+		if err := iw.Write(rec); err != nil {
+			return err
+		}
+		return iw.Close()
+	case "iocopy":
+		// relay of a stored blob; the wrapper hides WriterTo so that io.Copy
+		// goes through its own buffer, as for a file or an upstream body
+		_, err := io.Copy(w, struct{ io.Reader }{bytes.NewReader(pseudoRandomBytes(p.Seed, p.Size))})
+		return err
+	case "slices":
+		for _, chunk := range c17RouteWrites(p) {
+			if _, err := w.Write(chunk); err != nil {
+				return err
+			}
+		}
+		return nil
+	case "scratch":
+		// every Write comes out of one buffer, refilled for the next Write and
+		// scrubbed once the producer is done with it (a pooled buffer going back)
+		writes := c17RouteWrites(p)
+		max := 1
+		for _, chunk := range writes {
+			if len(chunk) > max {
+				max = len(chunk)
+			}
+		}
+		scratch := make([]byte, max)
+		defer func() {
+			for i := range scratch {
+				scratch[i] = 0xA5
+			}
+		}()
+		for _, chunk := range writes {
+			n := copy(scratch, chunk)
+			if _, err := w.Write(scratch[:n]); err != nil {
+				return err
+			}
+		}
+		return nil
+	}
+	return fmt.Errorf("c17 route: unknown mode %q", p.Mode)
+}
+
+func c17RouteCT(p *c17Route) string {
+	if p.CT == "text" {
+		return "text/plain; charset=utf-8"
+	}
+	return lib.ArrowCT
+}
+
+// c17RouteHandler is the server-supplied route: the plan travels in a request header.
+func c17RouteHandler(w http.ResponseWriter, r *http.Request) {
+	var p c17Route
+	if err := json.Unmarshal([]byte(r.Header.Get(c17PlanHeader)), &p); err != nil {
+		http.Error(w, "bad plan: "+err.Error(), http.StatusBadRequest)
+		return
+	}
+	w.Header().Set("Content-Type", c17RouteCT(&p))
+	if p.Header {
+		w.WriteHeader(http.StatusOK)
+	}
+	if err := c17RouteProduce(w, &p); err != nil {
+		panic("c17 route: " + err.Error())
+	}
 }
 
 // c17Request renders the main request of a case.
@@ -204,6 +379,9 @@ func c17Request(b c17Body) (method, path string, hdr hdrList, body []byte) {
 		return "POST", "/u_str", arrowHdr, lib.BuildRequest("u_str", lib.ScriptBatch(s.JSON()), lib.ReqOpts{})
 	case "health":
 		return "GET", "/health", nil, nil
+	case "route":
+		plan, _ := json.Marshal(b.Route)
+		return "POST", "/c17route", hdrList{{c17PlanHeader, string(plan)}}, []byte{}
 	}
 	panic("c17Request: " + b.Kind)
 }
@@ -322,6 +500,19 @@ func runC17(c c17Case) (out lib.Outcome) {
 		out.Violate("C17/compressed-without-accept", "request without accept headers was answered with an encoding stamp: %v", ident.Header)
 		return
 	}
+	if c.Body.Kind == "route" {
+		// the route's identity response is the planned body, whatever the write pattern
+		var want bytes.Buffer
+		if err := c17RouteProduce(&want, c.Body.Route); err != nil {
+			panic(err)
+		}
+		out.Label("route:"+c.Body.Route.Mode, "route-ct:"+c.Body.Route.CT)
+		if ident.Status != 200 || ident.Header.Get("Content-Type") != c17RouteCT(c.Body.Route) || !bytes.Equal(ident.Body, want.Bytes()) {
+			out.Violate("C17/route-identity-body", "custom route (%+v) without accept headers: status %d content-type %q, body %d bytes, planned %d bytes (equal=%v)",
+				*c.Body.Route, ident.Status, ident.Header.Get("Content-Type"), len(ident.Body), want.Len(), bytes.Equal(ident.Body, want.Bytes()))
+			return
+		}
+	}
 	main := doRequest(srv.h, method, path, withAccept(hdr, c.Main), body, true)
 	if main.Status != ident.Status {
 		out.Violate("C17/status-differs", "status %d with accept headers, %d without", main.Status, ident.Status)
@@ -379,8 +570,22 @@ func runC17(c c17Case) (out lib.Outcome) {
 	if !reject {
 		fixed := c17FixedRequest()
 		for i, p := range c.Pairs {
-			r := doRequest(srv.h, "POST", "/u_str", withAccept(hdrList{{"Content-Type", lib.ArrowCT}}, p), fixed, true)
-			judgeC17Stamp(&out, fmt.Sprintf("pair#%d", i), p, producible, r, srv.fixedRaw)
+			var r httpResult
+			if c.Body.Kind == "route" {
+				// a route body is judged under every pair of the case: its write
+				// pattern, not its content, is what the case is about
+				r = doRequest(srv.h, method, path, withAccept(hdr, p), body, true)
+				judgeC17Stamp(&out, fmt.Sprintf("pair#%d(route %s)", i, c.Body.Route.Mode), p, producible, r, ident.Body)
+				if r.Coding != "" && r.Coding != "identity" {
+					out.Label("route-compressed:" + c.Body.Route.Mode)
+					if w := c17RouteWrites(c.Body.Route); (c.Body.Route.Mode == "slices" || c.Body.Route.Mode == "scratch") && len(w) > 1 {
+						out.Label("route-compressed:multi-write")
+					}
+				}
+			} else {
+				r = doRequest(srv.h, "POST", "/u_str", withAccept(hdrList{{"Content-Type", lib.ArrowCT}}, p), fixed, true)
+				judgeC17Stamp(&out, fmt.Sprintf("pair#%d", i), p, producible, r, srv.fixedRaw)
+			}
 			classify(p)
 			if len(out.Violations) > 0 {
 				return
@@ -433,12 +638,14 @@ func runC17(c c17Case) (out lib.Outcome) {
 
 var propC17 = lib.Prop[c17Case]{
 	ID: "C17",
-	Rule: "header pairs from a grammar (tokens zstd/gzip/identity/br/deflate/*/x-foo/empty, random case, OWS, ;q= and other parameters incl. q=0, duplicates, 0-6 tokens, either header absent or empty) x SetCompressionLevel in {-1,0,1,2,3,4,5,7,9,11,12,22} (a level the server refuses leaves it at its default; one it accepts is judged like any other) x response bodies (unary binary 0 B-256 KiB [2 MiB thorough] compressible, pseudo-random text, RPC error, producer stream, describe, 404/415 Arrow errors, requests in an unknown or undecodable Content-Encoding, HTML landing/describe/404 pages, JSON 401, health JSON); every case also judges 6-12 further header pairs against a small fixed Arrow body and probes each codec on the custom header. " +
+	Rule: "header pairs from a grammar (tokens zstd/gzip/identity/br/deflate/*/x-foo/empty, random case, OWS, ;q= and other parameters incl. q=0, duplicates, 0-6 tokens, either header absent or empty) x SetCompressionLevel in {-1,0,1,2,3,4,5,7,9,11,12,22} (a level the server refuses leaves it at its default; one it accepts is judged like any other) x response bodies (unary binary 0 B-256 KiB [2 MiB thorough] compressible, pseudo-random text, RPC error, producer stream, describe, 404/415 Arrow errors, requests in an unknown or undecodable Content-Encoding, HTML landing/describe/404 pages, JSON 401, health JSON); bodies written by a server-supplied route (HttpServer.Handle) as Arrow or text in 1-6 Write calls of generated sizes incl. 0/1/4/8, from slices of the body or from one scratch buffer refilled per Write and scrubbed afterwards, as an ipc.Writer pointed at the ResponseWriter, or relayed with io.Copy up to 160 KiB, with or without an explicit WriteHeader); every case also judges 6-12 further header pairs against a small fixed Arrow body (a route body: against the route itself) and probes each codec on the custom header. " +
 		"Oracle: reference negotiate() written from the doc comment gives (codec, custom-header stamp); exactly that stamp and only on Arrow bodies; body decoded with the harness decoder equals the identity response of the same request; VGI-Supported-Encodings equals the probed set. " +
 		"Non-trivial: compression on, both headers with >=2 tokens, winning codec not first in the merged client order.",
 	Gen:          genC17,
 	Run:          runC17,
-	Essential:    []string{"stamp:custom", "stamp:standard", "pick:zstd", "pick:gzip", "pick:none", "identity-blocks-codec", "winner-not-first", "nonarrow-negotiated", "level:0", "body:unary_rand", "body:html_landing", "body:json_401"},
+	Essential:    []string{"stamp:custom", "stamp:standard", "pick:zstd", "pick:gzip", "pick:none", "identity-blocks-codec", "winner-not-first", "nonarrow-negotiated", "level:0", "body:unary_rand", "body:html_landing", "body:json_401",
+		"body:route", "route:slices", "route:scratch", "route:ipc", "route:iocopy", "route-ct:text",
+		"route-compressed:scratch", "route-compressed:ipc", "route-compressed:iocopy", "route-compressed:multi-write"},
 	EssentialMin: 100,
 	Assumptions: []string{
 		"q-values are ignored for ordering and acceptability, as the doc comment of parseAcceptEncoding states; '*' is not a codec",
